@@ -9,3 +9,24 @@ package parser
 // them. Domain: what parseLine actually receives - one line without newline, already
 // left-trimmed of blanks and tabs, and not blank.
 //@ directive[C03] pairwise-disjoint NewParser patterns and(lines, full(`[^ \t].*`), not(full(`\s*`)))
+
+// ---- C17: scanner protocol: every scan loop either consumed all lines or the scanner's
+// error is reported (fatal / returned) before the function returns normally ------------------
+//@ contract Parser.Parse
+//@   tags C17 C19
+//@   opt scan-complete C17
+//@   results buf wrote
+
+//@ contract replaceSuffixes
+//@   tags C17 C19
+//@   opt scan-complete C17
+//@   results out err
+
+//@ contract removeExclusions
+//@   tags C17 C19
+//@   opt scan-complete C17
+
+//@ contract buildinclusionLineMap
+//@   tags C17 C19
+//@   opt scan-complete C17
+//@   results m defs
